@@ -606,6 +606,53 @@ def rule_validate_first(rep: Report, repo: Repo) -> None:
                   expected='the returned address / size is a multiple of w, otherwise the resolve error')
 
 
+def rule_range_check(rep: Report, repo: Repo) -> None:
+    """the emitter's range validation, folded on a grid of (first, last) bit addresses at w = 8: a range is refused exactly when it is unaligned,
+    starts outside the memory or - when it is not empty - ends outside it; the EMPTY range [a, a) is what `reserve 0` produces"""
+    rep.rule('C02.RANGE-CHECK', 'validate_addresses refuses a [first, last) range iff it is unaligned, first lies outside [0, 2^w) or (last > first '
+             'and last - 1 lies outside): folded with the refusal of assert_address_in_memory substituted at each call under the conditions that '
+             'dominate the call - in particular an empty range at address 0 is accepted', 1)
+    from ..excflow import refusal_tests, dominating_guards
+    va = repo.func(ASM, 'validate_addresses')
+    aim = repo.func(ASM, 'assert_address_in_memory')
+    aim_tests = [t for _r, t in refusal_tests(aim)]
+    ap = [a.arg for a in aim.args.args]
+    if not aim_tests or len(ap) != 2:
+        raise AnalysisError('C02.RANGE-CHECK: assert_address_in_memory(memory_width, address) with a refusal expected')
+
+    def subst(e: ast.expr, binding: Dict[str, ast.expr]) -> ast.expr:
+        class S(ast.NodeTransformer):
+            def visit_Name(self, node: ast.Name) -> ast.AST:
+                return clone(binding[node.id]) if node.id in binding and isinstance(node.ctx, ast.Load) else node
+        return ast.fix_missing_locations(S().visit(clone(e)))
+    tests: List[ast.expr] = [t for _r, t in refusal_tests(va)]
+    for c in calls(va):
+        if dotted(c.func) == 'assert_address_in_memory' and len(c.args) == 2:
+            conds = [resolve_names(va, ast.parse(t, mode='eval').body) if pol else ast.UnaryOp(op=ast.Not(), operand=resolve_names(va, ast.parse(t, mode='eval').body))
+                     for t, pol in dominating_guards(c)]          # named conditions read as what they name
+            for t in aim_tests:
+                inner = subst(t, dict(zip(ap, [resolve_names(va, a_) for a_ in c.args])))
+                tests.append(ast.fix_missing_locations(ast.BoolOp(op=ast.And(), values=conds + [inner])) if conds else inner)
+    vp = [a.arg for a in va.args.args]
+    bad = []
+    W = 8
+    for first in (-8, 0, 8, 16, 248, 256, 264, 4):
+        for last in (first, first + 8, first + 16, 256, 264, first + 4):
+            if last < first:
+                continue
+            env = dict(zip(vp, (W, first, last)))
+            try:
+                got = any(bool(eval_int_expr(t, env)) for t in tests)
+            except AnalysisError as ex:
+                bad.append(str(ex))
+                break
+            want = first % W != 0 or last % W != 0 or first < 0 or first >= (1 << W) or (last > first and last - 1 >= (1 << W))
+            if got != want:
+                bad.append(f'[{first}, {last}) at w={W}: refused={got}, expected {want}')
+    rep.check(not bad, 'C02.RANGE-CHECK', 'validate_addresses', bad[0] if bad else f'{len(tests)} refusal conditions agree with the reference on the grid (empty ranges included)',
+              repo.site(ASM, va), expected='refused iff unaligned / first outside / non-empty and last - 1 outside')
+
+
 def check(rep: Report, repo: Optional[Repo] = None) -> None:
     repo = repo or Repo()
     rep.units = dict(files=[ASM, PRE, OPS], functions=['resolve_macro_aux', 'labels_resolve', 'BinaryData.*', 'add_segment_to_fjm',
@@ -618,6 +665,7 @@ def check(rep: Report, repo: Optional[Repo] = None) -> None:
     rule_pad_state(rep, repo)
     rule_flush_all(rep, repo)
     rule_validate_first(rep, repo)
+    rule_range_check(rep, repo)
     rep.not_decided += ['that every emitted word equals its expression value (C12 decides the operator tables)',
                         'the content and sharing of wflip chains (value-level)']
 
